@@ -108,6 +108,11 @@ type Gen struct {
 	nilProved  map[string][]*ssa.BasicBlock
 	globals    []string
 	owned      []string // references obtained from a pool in this activation (owned by it)
+	curIdx     int      // index in curBlock of the instruction being executed
+	pendingAsserts []Clause
+	assertsSeen    map[string]bool
+	leafT      map[string]types.Type // heap name -> Go type of a cell
+	leafDepth  map[string]int        // heap name -> number of indices down to a cell
 }
 
 type loopInfo struct {
@@ -192,8 +197,64 @@ func (g *Gen) heapInit(name, sort string) string {
 	if !g.declared[c] {
 		g.declared[c] = true
 		g.emit(evDecl, fmt.Sprintf("(declare-const %s %s)", c, sort))
+		g.heapRange(c, name)
 	}
 	return c
+}
+
+// freshHeap: an unconstrained new version of heap `name`.
+func (g *Gen) freshHeap(hint, name, sort string) string {
+	c := g.fresh(hint+name, sort)
+	g.heapRange(c, name)
+	return c
+}
+
+// heapRange: in int mode an unconstrained heap array of machine integers gets the axiom that every cell lies
+// in the range of its Go type (needed where values are read under quantifiers, where no per-read fact exists).
+func (g *Gen) heapRange(constName, heapName string) {
+	if g.mode != "int" {
+		return
+	}
+	t, ok := g.leafT[heapName]
+	if !ok {
+		return
+	}
+	depth := g.leafDepth[heapName]
+	var lo, hi string
+	if ii, ok := intInfoOf(t); ok {
+		l, h := rangeOf(ii)
+		lo, hi = intConstStr(l), intConstStr(h)
+	} else {
+		return
+	}
+	var binders, idx []string
+	for i := 0; i < depth; i++ {
+		v := fmt.Sprintf("i%d", i)
+		binders = append(binders, "("+v+" Int)")
+		idx = append(idx, v)
+	}
+	term := sel(constName, idx...)
+	g.emit(evAssert, fmt.Sprintf("(assert (forall (%s) (! (and (<= %s %s) (<= %s %s)) :pattern (%s) :qid hrange)))", strings.Join(binders, " "), lo, term, term, hi, term))
+}
+
+func (g *Gen) noteLeaf(heapName string, l Leaf, nidx int) {
+	if _, ok := g.leafT[heapName]; ok {
+		return
+	}
+	switch l.Part {
+	case "":
+		if at, ok := l.T.Underlying().(*types.Array); ok {
+			g.leafT[heapName] = at.Elem()
+			g.leafDepth[heapName] = nidx + 1
+			return
+		}
+		g.leafT[heapName] = l.T
+	case "off", "len", "cap":
+		g.leafT[heapName] = intT
+	default:
+		return
+	}
+	g.leafDepth[heapName] = nidx
 }
 
 func (g *Gen) heapGet(h *Heap, name, sort string) string {
@@ -213,6 +274,7 @@ func (g *Gen) heapGet(h *Heap, name, sort string) string {
 		if !g.declared[c] {
 			g.declared[c] = true
 			g.emit(evDecl, fmt.Sprintf("(declare-const %s %s)", c, sort))
+			g.heapRange(c, name)
 		}
 		return c
 	}
@@ -235,6 +297,7 @@ func (g *Gen) load(h *Heap, p Ptr) Val {
 	var terms []string
 	for _, l := range ls {
 		hn := p.Prefix + l.Path
+		g.noteLeaf(hn, l, len(p.Idx))
 		ht := g.heapGet(h, hn, g.heapSort(l.Sort, len(p.Idx)))
 		terms = append(terms, sel(ht, p.Idx...))
 	}
@@ -253,6 +316,7 @@ func (g *Gen) store(h *Heap, p Ptr, v Val) {
 	}
 	for i, l := range ls {
 		hn := p.Prefix + l.Path
+		g.noteLeaf(hn, l, len(p.Idx))
 		hs := g.heapSort(l.Sort, len(p.Idx))
 		ht := g.heapGet(h, hn, hs)
 		g.heapSet(h, hn, hs, storeN(ht, p.Idx, terms[i]))
@@ -462,6 +526,10 @@ func (g *Gen) prelude(body string) string {
 			b.WriteString("(assert (forall ((s Str) (t Str)) (! (or (= s t) (not (= (slen s) (slen t))) (and (bvsle (_ bv0 64) (sdiff s t)) (bvslt (sdiff s t) (slen s)) (not (= (sat s (sdiff s t)) (sat t (sdiff s t)))))) :pattern ((sdiff s t)))))\n")
 		}
 	} else {
+		b.WriteString("(declare-fun ix (Int Int) Int)\n")
+		if uses("ix") {
+			b.WriteString("(assert (forall ((o Int) (i Int)) (! (= (ix o i) (+ o i)) :pattern ((ix o i)) :qid ix_ax)))\n")
+		}
 		if uses("slen") {
 			b.WriteString("(assert (forall ((s Str)) (! (>= (slen s) 0) :pattern ((slen s)))))\n")
 		}
